@@ -191,6 +191,16 @@ var (
 	}
 )
 
+func init() {
+	// proto JSON reads enums through the generated value maps: accept the names written by String()
+	for name, state := range StringToRequestContextStateMap {
+		RequestContextState_value[name] = int32(state)
+	}
+	for name, state := range StringToRequestContextBatchStateMap {
+		RequestContextBatchState_value[name] = int32(state)
+	}
+}
+
 func RequestContextStateFromString(str string) (RequestContextState, error) {
 	if state, ok := StringToRequestContextStateMap[strings.ToLower(str)]; ok {
 		return state, nil
